@@ -22,11 +22,13 @@ var setPkgs = map[string]bool{"util/set": true, "util/container": true, "util/sp
 func init() {
 	register(&Property{
 		ID: "C25",
-		Explanation: "Decides structural necessary conditions of exact set algebra and closure: DTX(setalg): container.Merge/Intersect are evaluated abstractly for all 16 (Inverse, empty) operand states and the symbolic result (helper, operand order, polarity) equals A∪B / A∩B on every pair of subsets of a 3-element universe; Complement flips only the polarity. " +
+		Explanation: "Decides structural necessary conditions of exact set algebra and closure: DTX(setalg): container.Merge/Intersect are evaluated abstractly for all 16 (Inverse, empty) operand states and the symbolic result (helper, operand order, polarity) equals A∪B / A∩B on every pair of subsets of a 3-element universe; Complement flips only the polarity. MINMAX(update): the low-link updates of graph.Tarjan (which orders the closure) compare against the cell they update. " +
 			"ALIAS: at every call that fills a caller-supplied scratch buffer (p[:0] idiom, found by summary) no other operand may share storage with the buffer (field-based may-alias with reaching stores). GUARD(complcycle): an error is recorded exactly under op==complement ∧ onStack(operand), and Compute returns it. " +
 			"Not decided: the merge loops of combine/intersect/subtract, the least-fixpoint property, Tarjan itself.",
-		Rules: []string{"DTX(setalg)", "ALIAS", "GUARD(complcycle)"},
+		Rules: []string{"DTX(setalg)", "ALIAS", "GUARD(complcycle)", "MINMAX(update)"},
 		Run: func(c *Ctx) {
+			ruleMINMAX(c, "util/graph", "util/set")
+			c.MinCount("MINMAX(update)", "util/graph.", 2)
 			ruleSETALG(c)
 			ruleSETEQ(c)
 			ruleALIAS(c, setPkgs)
@@ -106,10 +108,12 @@ func init() {
 	register(&Property{
 		ID: "C03",
 		Explanation: "Decides the structural clauses of 'conflict reports are exact': GUARD(conflict-accounting): the shift/reduce counter grows by len(conflict.Next) exactly under !Resolved and CanShift, the reduce/reduce counter under !Resolved and !CanShift. DTX(reportConflicts): for all 16 combinations of (sr = %expect, rr = %expect-rr, includeResolved, verbose) the summary error at the grammar origin is raised iff a count differs; the counts are exported. " +
-			"GUARD(unionclone) + ALIAS/ESCAPE over lalr: lookahead sets kept in states never share storage with the scratch buffer that the next union overwrites. DTX(ruleAction): which resolution is recorded per conflict. DTX(lr0-shift): a state with a reduction that receives its first shift loses its 'reduce without lookahead' status on every path. " +
+			"GUARD(unionclone) + ALIAS/ESCAPE over lalr: lookahead sets kept in states never share storage with the scratch buffer that the next union overwrites. DTX(ruleAction): which resolution is recorded per conflict. DTX(lr0-shift): a state with a reduction that receives its first shift loses its 'reduce without lookahead' status on every path. MINMAX(update): the low-link updates of the SCC pass that orders the lookahead propagation (util/graph Tarjan) compare against the cell they update. " +
 			"Not decided: LR(0) closure, lookback/follow propagation, the LALR(1) sets themselves — algorithmic, out of reach for this technique.",
-		Rules: []string{"GUARD(conflict-accounting)", "DTX(reportConflicts)", "DTX(lr0-shift)", "GUARD(unionclone)", "ALIAS", "ESCAPE", "DTX(ruleAction)"},
+		Rules: []string{"GUARD(conflict-accounting)", "DTX(reportConflicts)", "DTX(lr0-shift)", "GUARD(unionclone)", "ALIAS", "ESCAPE", "DTX(ruleAction)", "MINMAX(update)"},
 		Run: func(c *Ctx) {
+			ruleMINMAX(c, "util/graph", "lalr", "util/container", "util/sparse")
+			c.MinCount("MINMAX(update)", "util/graph.", 2)
 			ruleCONFLICTCOUNT(c)
 			ruleREPORTCONFLICTS(c)
 			ruleLR0SHIFT(c)
